@@ -651,6 +651,7 @@ class P(Prop):
         (M, "TV.C06.heapq_heappop_min", "heapq.heappop (_siftup: bubble to a leaf, then _siftdown) returns a minimum of the multiset, leaves the other items, keeps the heap invariant; fails iff empty"),
         (M, "TV.C06.heapq_heapify", "heapq.heapify turns any list into a heap with the same items"),
         (M, "TV.C06.routing_settings_per_object", "several Network objects, setRoutingMethod / setAStarWeight / calls interleaved in any order: each object ends in the state and returns the answers of the calls addressed to it alone (the settings are per instance)"),
+        (M, "TV.C06.world_dijkstra_distance_correct", "any program over several Network objects (creations, edges, searches, prepare, sub_network, setRoutingMethod / setAStarWeight on any of them, interleaved): on an object whose own method is Dijkstra shortest_distance(s,t[,cut]) = the minimum over permitted walks of its current graph, sentinel iff none"),
         (M, "TV.C06.own_setting_dijkstra_is_session", "an object whose own routing_mode is not 1 (the default) answers every call as the session model, whatever its astar_wgt; the setters change their own object's two attributes only"),
         (M, "TV.C06.no_target_no_heuristic", "in A* mode every call other than a search with a target (list form, all_shortest_distances, prepare, sub_network) is the Dijkstra call: the heuristic is never computed"),
         (M, "TV.C06.astar_zero_heuristic_is_dijkstra", "A* with a heuristic that is 0 everywhere (astar_wgt = 0, or all nodes at the target's place) runs as Dijkstra: shortest_distance(s,t) = the true minimum, sentinel iff unreachable"),
